@@ -24,10 +24,10 @@ type Rows struct {
 	ErrAt int   // deliver Err instead of row number ErrAt (-1 / beyond = never)
 	Err   error // error delivered at ErrAt (default: a generic read error)
 	// Block, if set, is called before every Next (lets a case hold the stream)
-	Block func(i int)
-	i     int
-	sess  *Session
-	stmt  int
+	Block  func(i int)
+	i      int
+	sess   *Session
+	stmt   int
 	closed bool
 }
 
@@ -84,15 +84,15 @@ type Stmt struct {
 
 // Session is one fake database (one name = one handler = one dbVersion cache entry).
 type Session struct {
-	Name    string
-	mu      sync.Mutex
-	handler Handler
-	Log     []Stmt
-	open    map[int]string
-	Opened  int64
-	Closed  int64
+	Name     string
+	mu       sync.Mutex
+	handler  Handler
+	Log      []Stmt
+	open     map[int]string
+	Opened   int64
+	Closed   int64
 	RowsRead int64
-	db      *sql.DB
+	db       *sql.DB
 	// schema answers for the two statements dbVersion issues
 	Tables   []string
 	Versions map[string]string // e.g. {"tempo_v2": "0"}
@@ -120,9 +120,9 @@ func (drv) Open(name string) (driver.Conn, error) {
 	return &conn{s}, nil
 }
 func (*conn) Prepare(q string) (driver.Stmt, error) { return nil, fmt.Errorf("verifch: no prepare") }
-func (*conn) Close() error                         { return nil }
-func (*conn) Begin() (driver.Tx, error)            { return nil, fmt.Errorf("verifch: no tx") }
-func (c *conn) Ping(ctx context.Context) error     { return nil }
+func (*conn) Close() error                          { return nil }
+func (*conn) Begin() (driver.Tx, error)             { return nil, fmt.Errorf("verifch: no tx") }
+func (c *conn) Ping(ctx context.Context) error      { return nil }
 
 func (c *conn) QueryContext(ctx context.Context, q string, args []driver.NamedValue) (driver.Rows, error) {
 	s := c.s
@@ -226,8 +226,8 @@ func (s *Session) QueryCtx(ctx context.Context, q string, args ...any) (*sql.Row
 }
 func (s *Session) ExecCtx(ctx context.Context, q string, args ...any) error { return nil }
 func (s *Session) Conn(ctx context.Context) (*sql.Conn, error)              { return s.db.Conn(ctx) }
-func (s *Session) Begin() (*sql.Tx, error)                                   { return s.db.Begin() }
-func (s *Session) Close()                                                    {}
+func (s *Session) Begin() (*sql.Tx, error)                                  { return s.db.Begin() }
+func (s *Session) Close()                                                   {}
 
 type Registry struct {
 	mu sync.Mutex
